@@ -102,10 +102,28 @@ def firstSend : List COp → Nat
 grpc.Header and grpc.Trailer call options (`collectMetadata`). -/
 def invokeScript (m : Nat) : List COp := [.send m, .closeSend, .recv, .header, .trailer]
 
+/-- The first cancel / deadline of a client script. -/
+def firstAbort : List COp → Option Abort
+  | [] => none
+  | .abort a :: _ => some a
+  | _ :: cs => firstAbort cs
+
+/-- `Invoke` whose caller's context ends while it is blocked in `RecvMsg(reply)` (the handler has taken the
+request and is parked): RecvMsg returns the context's error, then `collectMetadata` fills the grpc.Header
+call option from `Header()` — after the abort.  (The grpc.Trailer option after an abort is the recorded
+finding `trailer-after-abort`; these calls are made without it.) -/
+def invokeAbortScript (m : Nat) (a : Abort) : List COp := [.send m, .closeSend, .abort a, .recv, .header]
+
+/-- What `Invoke` does with the stream, given the request and whether the caller's context ends. -/
+def invokeOps (cs : List COp) : List COp :=
+  match firstAbort cs with
+  | none => invokeScript (firstSend cs)
+  | some a => invokeAbortScript (firstSend cs) a
+
 /-- The client ops actually executed for a call shape. -/
 def clientOps (shape : Shape) (cs : List COp) : List COp :=
   match shape with
-  | .unary => invokeScript (firstSend cs)
+  | .unary => invokeOps cs
   | _ => cs
 
 /-- `cloneMD`: a fresh map with fresh value slices, same content. -/
